@@ -146,6 +146,7 @@ type Exec struct {
 	symByVal   map[int64]string        // value -> SMT constant, for array types whose length is such a constant
 	synth      map[string]*types.Var
 	ghostVals  map[string]Term
+	restartLabel string // label on the first statement of the body (target of a restarting goto)
 	memReads   map[string]Term // non-nil while the body of an opaque spec is expanded: the memories it reads
 	paramObjs  []*types.Var
 	epochs     int
